@@ -342,7 +342,7 @@ theorem parseMerkle_marshalMerkle (v2 : Bool) (r : Receipt) (b rest : Bytes) (hw
     simp only [Option.bind_some, Option.pure_def, Option.some.injEq, Prod.mk.injEq, and_true, Receipt.view, hname, hc]
     cases v2 <;> cases hfd : r.feeDeleg <;> simp
 theorem map_hash_inj (H : Bytes → Bytes) (xs ys : List Bytes) (h : xs.map H = ys.map H) :
-    xs = ys ∨ ∃ x y, x ≠ y ∧ H x = H y := by
+    xs = ys ∨ ∃ x ∈ xs, ∃ y ∈ ys, x ≠ y ∧ H x = H y := by
   induction xs generalizing ys with
   | nil => cases ys with
     | nil => exact .inl rfl
@@ -352,9 +352,9 @@ theorem map_hash_inj (H : Bytes → Bytes) (xs ys : List Bytes) (h : xs.map H = 
     | cons y ys =>
       simp only [List.map_cons, List.cons.injEq] at h
       by_cases hxy : x = y
-      · rcases ih ys h.2 with h1 | h1
+      · rcases ih ys h.2 with h1 | ⟨a, ha, b, hb, hne, he⟩
         · exact .inl (by rw [hxy, h1])
-        · exact .inr h1
-      · exact .inr ⟨x, y, hxy, h.1⟩
+        · exact .inr ⟨a, List.mem_cons_of_mem _ ha, b, List.mem_cons_of_mem _ hb, hne, he⟩
+      · exact .inr ⟨x, by simp, y, by simp, hxy, h.1⟩
 
 end Aergo.Receipt
